@@ -398,6 +398,7 @@ def _run_play(case, cas):
 # kind "copy": copy-on-interception
 
 HFORMS = ("result", "pair", "dict", "req", "buf_only", "nested", "fresh")
+FORCE_POINTS = ("start", "in_input", "after_input", "after_mutation", "end")
 
 
 def _fill(buf, v, tag):
@@ -432,20 +433,30 @@ def _prepared(form, result, buf, req):
 def run_copy(case):
     from playback.interception.input_interception import InputInterceptionDataHandler
     cas = InMemoryTapeCassette()
-    rec = TapeRecorder(cas)
+    # sampling configuration of the operation class: the copy-on-interception clause is about every recording that ends
+    # up SAVED, whatever made it so (rate 1, a winning draw, or force_sample_recording() at any point of the operation)
+    rate = case.get("rate")             # None: the default RecordingParameters sampling rate
+    force = case.get("force")           # None | one of FORCE_POINTS: where the operation enforces sampling
+    rec = TapeRecorder(cas, random_seed=case.get("rseed"))
     rec.enable_recording()
     script = case["script"]
     g_in, g_out = case["vin"], case["vout"]
     flag = case["copy"]
+
+    def at(point):
+        if force == point:
+            rec.force_sample_recording()
     form = case.get("hform")            # None: no data handler
     via = case.get("via", "arg")        # how the out-parameter is passed
     static = bool(case.get("static"))
     live = {}
     cap = {}
     held = {}                           # live objects the service keeps working on
+    live_saved = []
     orig_save = cas._save_recording
 
     def spy_save(recording):
+        live_saved.append(recording.id)
         # the live recording object, after the operation's later mutations, before it is serialized
         for key in recording.get_all_keys():
             live[key] = recording.get_data_direct(key)
@@ -477,6 +488,7 @@ def run_copy(case):
         held["result"] = v
         if form is None:
             capture("in", v)
+        at("in_input")
         return v
 
     handler = Handler() if form is not None else None
@@ -496,7 +508,10 @@ def run_copy(case):
         def store(self, payload):
             return capture("res", hg.build(g_out)[1])
 
-    @rec.recording_params(RecordingParameters(copy_data_on_intercepion=flag))
+    params = RecordingParameters(copy_data_on_intercepion=flag) if rate is None else \
+        RecordingParameters(sampling_rate=rate, copy_data_on_intercepion=flag)
+
+    @rec.recording_params(params)
     class Op(object):
         @rec.operation()
         def execute(self):
@@ -504,22 +519,26 @@ def run_copy(case):
             into = hg.build(case["vbuf"])[1] if "vbuf" in case else []
             req = hg.build(case["vreq"])[1] if "vreq" in case else {"q": [1]}
             held["into"], held["req"] = into, req
+            at("start")
             if via == "kwarg":
                 a = svc.load(1, into=into, req=req)
             else:
                 a = svc.load(1, into, req=req)
             held["returned_is_original"] = (a is held.get("result"))
+            at("after_input")
             # the service goes on working, in place, on everything it holds
             hg.mutate(a, script)
             hg.mutate(into, script)
             hg.mutate(req, script)
+            at("after_mutation")
             r = svc.store("x")
             cap["res"]["returned_is_original"] = (r is cap["res"]["value"])
             hg.mutate(r, script)
+            at("end")
             return 1
 
     Op().execute()
-    out = {"copy": flag, "values": []}
+    out = {"copy": flag, "saved": bool(live_saved), "values": []}
     for tag, prefix in (("in", "input: load"), ("res", "output: store #1.result")):
         key = next((k for k in sorted(live) if k.startswith(prefix)), None)
         o = {"tag": tag, "recorded": key is not None and tag in cap}
